@@ -454,4 +454,4 @@ func (r *Run) writeEvidence(nDis, nKnown, nViol, nUnd int) {
 // Join builds a construct key.
 func Key(parts ...string) string { return strings.Join(parts, "|") }
 
-func normKey(k string) string { return strings.ReplaceAll(k, "~", "") }
+func normKey(k string) string { return term.DropNilPhi(strings.ReplaceAll(k, "~", "")) }
